@@ -103,6 +103,10 @@ func formatRequest(r *http.Request) string {
 // Execute is called by a Scheduler when the Trigger associated with this job fires.
 func (cu *CurlJob) Execute(ctx context.Context) error {
 	cu.mtx.Lock()
+	// release the connection held by the response of the previous execution
+	if cu.response != nil && cu.response.Body != nil {
+		_ = cu.response.Body.Close()
+	}
 	cu.request = cu.request.WithContext(ctx)
 	var err error
 	cu.response, err = cu.httpClient.Do(cu.request)
